@@ -9,8 +9,8 @@ package main
 // and its bytes are recorded.  Then histories of other operations are executed and the probe is run
 // again: input = (kind, probe, fresh bytes, abstract history, adversary, abstract probe),
 // observation = the probe's bytes after the history.  The Coq oracle demands equality with the
-// fresh bytes; the model re-renders JSON probes with the shared encoder model and runs the pooled
-// model over the abstracted history.
+// fresh bytes; the extracted model runs the pooled
+// Coq model over the abstracted history and answers with the carried fresh line.
 //
 // All probes run through the single call site in c08call so that captured stacks are identical.
 
@@ -32,7 +32,7 @@ import (
 
 type c08Probe struct {
 	id    int
-	kind  int // 0 = JSON encoder case rendered by the model, 1 = bytes carried
+	kind  int // 0 = JSON ioCore.Write of a generated encoder case (case text kept for the replay), 1 = console / Logger probe
 	label string
 	sx    SX // kind 0: the encoder case; kind 1: label
 	abs   SX // abstraction for the pooled model
@@ -510,6 +510,11 @@ func c08(c *Ctx) {
 		if len(hist) > 0 && strings.Trim(classes, "g") != "" {
 			nt = "1"
 		}
+		// the pooled model is run over the last operations of the history only (its cost grows
+		// with the length; the real run saw the whole history)
+		if len(hist) > 40 {
+			hist = hist[len(hist)-40:]
+		}
 		in := L(I(p.kind), p.sx, B(fresh[p.id]), L(hist...), c08Adv(r, 12), p.abs)
 		c.Emit(in, L(B(out)), map[string]string{"nt": nt, "class": class + ":" + p.label})
 	}
@@ -607,7 +612,7 @@ func c08(c *Ctx) {
 	// random histories
 	nh, maxOps, points := 170, 60, 5
 	if c.Thorough {
-		nh, maxOps, points = 3000, 200, 8
+		nh, maxOps, points = 800, 200, 8
 	}
 	for h := 0; h < nh; h++ {
 		if h%7 == 6 {
